@@ -102,6 +102,14 @@ pub fn scenarios() -> Vec<Scenario> {
                 a2.extend(a);
                 v.push(mk(&format!("malformed-glob-stars-{}", pn), vec![], a2));
             }
+            // the same classes reached through --glob: one pattern that expands to several sources, to a directory, ...
+            v.push(mk("glob-several-onto-nondir", vec![], s(&["-g", "v?", "dst"])));
+            v.push(mk("glob-several-onto-nondir-star", vec![], s(&["-g", "v*", "dst"])));
+            v.push(mk("glob-two-patterns-onto-nondir", vec![], s(&["-g", "v1", "v2*", "dst"])));
+            v.push(mk("glob-dir-without-r", vec![], s(&["-g", "sd*", "dst"])));
+            v.push(mk("glob-dir-without-r-among-valid", vec![], s(&["-g", "v1", "sd*", "dst"])));
+            v.push(mk("glob-dir-onto-file", vec![], s(&["-r", "-g", "sdi?", "dst"])));
+            v.push(mk("glob-same-as-dest", vec![], s(&["-g", "v1*", "v1"])));
             v.push(mk("glob-no-match", vec![], s(&["-g", "nomatch*", "dst"])));
             v.push(mk("glob-no-match-2", vec![], s(&["-g", "zz?", "qq*", "dst"])));
             v.push(mk("target-directory-missing-source", vec![], s(&["--target-directory", "dst", "v1", "missing"])));
